@@ -184,8 +184,8 @@ def gen(rng, tier):
                 edges.append([a, b])
         rng.shuffle(edges)
         c = {"kind": "rand", "nodes_t": tys, "edges": edges}
-        if edges and rng.random() < 0.15:
-            c["edge_lists"] = True
+        if edges and rng.random() < 0.2:
+            c["edge_lists"] = rng.choice([True, "mixed"])
         if rng.random() < 0.3:
             # a history on ONE graph object: check, re-assign some node types (names and edges unchanged), check again
             tys2 = []
@@ -204,7 +204,7 @@ def recipe(c):
     r = {"k": "NIRGraph", "nodes": {nm: leaf(t["in"], t["out"]) for nm, t in c["nodes_t"]},
          "edges": [tuple(e) for e in c["edges"]]}
     if c.get("edge_lists"):
-        r["edge_lists"] = True       # edges as 2-element lists (unhashable)
+        r["edge_lists"] = c["edge_lists"]       # edges as 2-element lists (unhashable), or lists and tuples mixed
     return r
 
 
